@@ -1,8 +1,24 @@
 """C14 -- coroutine Mutex: mutual exclusion and no lost wake-up.  Tier A over detail::MutexImpl<FIFO,Batching> (mutex.hpp)."""
 import core
+from checks import mutex_common
 
 
 def plan(tier, seed, ctx):
+    kp = kernel_plan(tier, seed, ctx)
+    cp = mutex_common.make_plan('C14', tier, seed, ctx)
+    kp['modules'].update(cp['modules'])
+    kp['module_opts'].update(cp['module_opts'])
+    kp['queries'] += cp['queries']
+    kp['meta']['rule'] += ' Coroutine level: ' + cp['meta']['rule']
+    kp['meta']['stubs'] += cp['meta']['stubs']
+    kp['meta']['bounds']['coroutine_level'] = cp['meta']['bounds']
+    kp['meta']['assumptions'] = [a for a in kp['meta']['assumptions'] if 'awaiters' not in a] + cp['meta']['assumptions']
+    kp['meta']['explanation'] += ' Coroutine level: ' + cp['meta']['explanation']
+    kp['meta']['functions_filter'] = r'(Mutex|Guard|Awaiter|Worker|c15_|c14k)'
+    return kp
+
+
+def kernel_plan(tier, seed, ctx):
     kmax = 10 if tier == 'quick' else 14
     modules, mopts, queries = {}, {}, []
     units = ['c14k_locker0', 'c14k_locker1', 'c14k_locker2', 'c14k_prober']
@@ -38,10 +54,12 @@ def plan(tier, seed, ctx):
 
 
 MANIFEST = {
-    'level_text': 'For the lock-word protocol of yaclib::Mutex (MutexImpl, FIFO on and off) the solver shows for every well-nested two-unit schedule of two lockers, or a locker and a TryLock prober '
+    'level_text': 'Coroutine level: real coroutines through Lock/Unlock, Guard, Lock/UnlockHere, Lock/UnlockOn(e), GuardSticky on Mutex<Batching,FIFO> (<true,false> and <false,true>; all four in thorough): '
+                  'for every well-nested schedule of two coroutine starts (third coroutine sequenced before), preemption at any atomic operation and inside critical sections: one holder at a time, TryLock only when free, '
+                  'every request granted exactly once (also with inline executors = single thread), mutex free and frames released at quiescence. Kernel level: for the lock-word protocol of yaclib::Mutex (MutexImpl, FIFO on and off) the solver shows for every well-nested two-unit schedule of two lockers, or a locker and a TryLock prober '
                   '(preemption at any atomic operation, covering bound proved, one spurious weak-CAS failure): never two holders, TryLock succeeds only when free, every Lock request is granted exactly '
                   'once (a parked coroutine is always woken: no lost wake-up in the enqueue-vs-release window), the mutex is free at quiescence.',
-    'level_note': 'Kernel level (stub coroutines/executors), 2 logical threads, 1 round; awaiter classes, batching and FIFO order of several waiters not covered. Trusted: clang -O1 IR, ir2c, rt, cbmc.',
+    'level_note': '2 racing (+1 sequenced) coroutines, 1 round, well-nested schedules; FIFO grant order not asserted. Trusted: clang -O1 IR, ir2c, rt, cbmc.',
     'technique': 'bounded model checking of the real code with solver-decided preemption cubes',
     'design_ref': 'DESIGN.md 4 C14',
 }
